@@ -144,10 +144,57 @@ def resumed_cases(tier, seed):
                "world": {"complete": {}, "timers": "all"}}
 
 
+def more_cases(tier, seed):
+    """(a) resumed invocation, the survivor is INSIDE an operation it started in this invocation when the parent completes (the
+    operation is known, its next record must still be refused); (b) the parent is recorded FAILED while a branch is alive: the
+    block was decided early and its result could not be serialized (items need the item serdes, the block has no serdes of its own)."""
+    rng = random.Random(seed + 13)
+    j = 0
+    for kind in ("par", "map"):
+        for depth in (1, 2):
+            for inner in ("step", "step-most", "wfc"):
+                op = {"step": {"k": "step", "script": [{"do": "ok", "val": "s", "gate": "surv"}]},
+                      "step-most": {"k": "step", "script": [{"do": "ok", "val": "s", "gate": "surv"}], "sem": "most"},
+                      "wfc": {"k": "wfc", "init": 0, "checks": [{"do": "ok", "gate": "surv"}], "decisions": [("stop",)]}}[inner]
+                surv = [{"k": "wait", "s": 1}, op, {"k": "step", "val": "tail"}]
+                for _ in range(depth - 1):
+                    surv = [{"k": "child", "body": surv}]
+                brs = [{"body": [{"k": "wait", "s": 1}, {"k": "step", "val": "fast"}]}, {"body": surv}]
+                node = {"k": "par", "branches": brs, "cfg": {"min_ok": 1}} if kind == "par" else {"k": "map", "items": [0, 1], "per_item": brs, "body": [], "cfg": {"min_ok": 1}}
+                done_cond = {"applied": {"Name": "0", "Type": "CONTEXT", "Action": "SUCCEED"}}
+                yield {"label": "resumed-inside-operation|%s|d%d|%s" % (kind, depth, inner), "prog": {"body": [node, {"k": "gate", "name": "main-hold"}, {"k": "step", "val": "end"}]},
+                       "prog_seed": 19950 + j, "pattern": {"p": "plain"}, "max_inv": 12, "world": {"complete": {}, "timers": "all"},
+                       "holds": [{"match": {"kind": "gate", "name": "surv"}, "until": done_cond, "delay_ms": rng.choice([0, 3])},
+                                 {"match": {"kind": "gate", "name": "main-hold"}, "until": {"event": {"kind": "fn_exit", "fnkind": "branch", "path": "0/b1"}}}],
+                       "opts": {"idle_s": 0.5, "hang_s": 3.0}}
+                j += 1
+    for kind in ("par", "map"):
+        for position in ("inside-function", "between-operations", "first-operation"):
+            for nextop in ("step", "wait", "child", "cb"):
+                if position == "inside-function":
+                    surv = [{"k": "step", "script": [{"do": "ok", "val": "s", "gate": "surv"}]}, dict(NEXT_OPS[nextop])]
+                elif position == "between-operations":
+                    surv = [{"k": "step", "val": "s"}, {"k": "gate", "name": "surv"}, dict(NEXT_OPS[nextop])]
+                else:
+                    surv = [{"k": "gate", "name": "surv"}, dict(NEXT_OPS[nextop]), {"k": "step", "val": "tail"}]
+                brs = [{"body": [{"k": "step", "val": "fast"}], "result": {"exotic": True}}, {"body": surv}]
+                cfg = {"min_ok": 1, "item_serdes": "exotic"}
+                node = {"k": "par", "branches": brs, "cfg": cfg} if kind == "par" else {"k": "map", "items": [0, 1], "per_item": brs, "body": [], "cfg": cfg}
+                failed = {"applied": {"Name": "0", "Type": "CONTEXT", "Action": "FAIL"}}
+                yield {"label": "parent-recorded-failed|%s|%s|%s" % (kind, position, nextop),
+                       "prog": {"body": [{"k": "try", "body": node, "catch": "*"}, {"k": "gate", "name": "main-hold"}, {"k": "step", "val": "end"}]},
+                       "prog_seed": 19980 + j, "pattern": {"p": "plain"}, "max_inv": 12,
+                       "holds": [{"match": {"kind": "gate", "name": "surv"}, "until": failed, "delay_ms": rng.choice([0, 2])},
+                                 {"match": {"kind": "gate", "name": "main-hold"}, "until": {"event": {"kind": "fn_exit", "fnkind": "branch", "path": "0/b1"}}}],
+                       "opts": {"idle_s": 0.5, "hang_s": 3.0}}
+                j += 1
+
+
 def explicit_all(tier, seed):
     yield from explicit(tier, seed)
     yield from inflight_cases(tier, seed)
     yield from resumed_cases(tier, seed)
+    yield from more_cases(tier, seed)
 
 
 SPEC = Spec(
@@ -164,7 +211,7 @@ SPEC = Spec(
     "parallel, map, wait_for_callback); plus the check-then-put window forced by parking the survivor's queue.put of an already "
     "registered operation until the parent's completion is applied; a branch whose very first record is issued while the parent's "
     "completion record is in flight (sent, response held by the conductor); large (200-300 KB) descendant updates queued just before an "
-    "early completion under a 10-60 ms backend; yield injection on 1/6. The main thread is held after the call "
+    "early completion under a 10-60 ms backend; yield injection on 1/6; the early completion happening in a later (resumed) invocation, with the survivor about to start an operation or inside one it started in that invocation; the block recorded FAILED (its result could not be serialized) while a branch is alive. The main thread is held after the call "
     "returns so the orphan keeps running inside the same invocation. Oracle: over the applied-update stream no update (for an existing "
     "or a first-time operation) arrives after the completion record of one of its ancestors (ancestry from the ParentId links seen), and "
     "no user function is entered by a call issued after an ancestor's completion was applied. A class = the scenario tuple.",
